@@ -192,7 +192,7 @@ func c04Oracle(sp *Spec, x *X, res *mcrt.Result) (string, string) {
 							hasSucc = true
 						}
 					}
-					if !hasSucc && !bs.Rm {
+					if !hasSucc {
 						return "not-popped", fmt.Sprintf("bar %d finished in pop mode but was never drawn popped (frames: %d)", b, len(writes))
 					}
 				}
